@@ -79,8 +79,29 @@ func (ex *Exec) isPureCallee(name string) bool {
 	return false
 }
 
+// ModelsUsed records which families of dependency models a run actually exercised (reported as assumptions).
+var ModelsUsed = map[string]bool{}
+
+func noteModel(name string) {
+	switch {
+	case strings.Contains(name, "dgraph-io/badger"):
+		ModelsUsed["A3 badger ghost model: per DB a Has/Val map; View/Update run the closure, Update commits iff the closure returned nil and no conflict; iterators visit present entries, no completeness"] = true
+	case strings.Contains(name, "heimdalr/dag"):
+		ModelsUsed["A2 heimdalr/dag ghost model: vertex map and edge relation; AddVertexByID/AddEdge/DeleteVertex/GetVertex/GetLeaves/GetRoots/IsLeaf/IsRoot per their documentation; AncestorsWalker delivers ids of present vertices through a channel whose producer holds the graph read lock until it is drained; no completeness of a walk"] = true
+	case strings.Contains(name, "allegro/bigcache"):
+		ModelsUsed["A6 bigcache behaves as a map: Get finds what Set stored, Set succeeds, Delete removes, no eviction inside one operation"] = true
+	case strings.HasPrefix(name, "os.") || strings.HasPrefix(name, "(*os.File)"):
+		ModelsUsed["A15 file system ghost model: one content per path; WriteFile replaces, ReadFile returns it, OpenFile/Write keep the old tail unless O_TRUNC; every call may fail and then changes nothing"] = true
+	case strings.HasPrefix(name, "crypto/"):
+		ModelsUsed["A5 sha256 and ed25519 are uninterpreted functions (no cryptographic strength is modelled); ed25519.Verify panics unless the key has 32 bytes"] = true
+	case strings.HasPrefix(name, "time."):
+		ModelsUsed["time: Now is arbitrary; Unix(0,n).UnixNano() == n for every int64 n; other time functions uninterpreted"] = true
+	}
+}
+
 func (ex *Exec) externModel(name string) *ExternModel {
 	if m, ok := externModels[name]; ok {
+		noteModel(name)
 		return m
 	}
 	if strings.HasPrefix(name, "slices.SortStableFunc[") {
